@@ -5,7 +5,7 @@ for D in "$@"; do
   base=$(basename "$D"); pid=${base:0:3}; tag=${base:3:1}
   for k in 1 2 3; do
     [ -f "$D/out/m$k/patch.diff" ] || continue
-    id="$pid-w5${tag}m$k"
+    id="$pid-w${WAVE:-5}${tag}m$k"
     /verif/tools/confirm_seed.sh "$D/out/m$k" "$id" | tail -1 | cut -c1-330
   done
 done
